@@ -143,7 +143,22 @@ def compound_through_fold(ctx, rule):
         rep.fail(rule, "anchor::visit_assignment", "ExecStmt::visit_assignment not found")
         return
     rep.analysed(fn)
-    folds = [bi for bi, t in fn.calls() if callee_def(t) == "exec::produce_val::binary_operator_fold"]
+    FOLD = "exec::produce_val::binary_operator_fold"
+
+    def always_folds(h, depth=0):
+        """a private helper whose every normal return has passed binary_operator_fold (and hands its result on)"""
+        fs = [bi for bi, t in h.calls() if callee_def(t) == FOLD]
+        if not fs:
+            return False
+        return not common.path_to_return_avoiding(h, fs)
+    folds = [bi for bi, t in fn.calls() if callee_def(t) == FOLD]
+    helper_fold = False
+    if not folds:
+        for bi, t in fn.calls():
+            h = F.fn(callee_def(t) or "")
+            if h is not None and h.mir and h.file == fn.file and t["callee"].get("trait") is None and always_folds(h):
+                folds.append(bi)
+                helper_fold = True
     # the branch on `operator`
     some_targets = []
     for bi in range(len(fn.blocks)):
@@ -174,6 +189,13 @@ def compound_through_fold(ctx, rule):
            fn.loc(fn.term(folds[0])["line"]), how="the write is unreachable from the Some(op) branch once the fold call is removed")
     # the operator handed to the fold is the statement's
     t = fn.term(folds[0])
-    src = set(origins(fn, t["args"][0]))
+    op_arg = t["args"][0]
+    if helper_fold:
+        # which argument of the helper becomes the fold's operator
+        h = F.fn(callee_def(t))
+        ft = [tt for b2, tt in h.calls() if callee_def(tt) == FOLD][0]
+        ps = [d[1] for d, _ in origins(h, ft["args"][0]) if d[0] == "param"]
+        op_arg = t["args"][ps[0] - 1] if ps and ps[0] - 1 < len(t["args"]) else t["args"][0]
+    src = set(origins(fn, op_arg))
     ok = any(d == ("param", 2) and "operator" in p for d, p in src) and len({d for d, p in src}) == 1
     rep.ob(rule, "compound::operator-is-the-statement's", ok, "" if ok else "the operator handed to the fold is not a.operator (%s)" % sorted(map(str, src)), fn.loc(t["line"]), how="a.operator")
